@@ -237,15 +237,18 @@ func (view *View) group(ctx context.Context, scope *ReferenceScope, items []pars
 		return err
 	}
 
-	view.RecordSet = records
-	view.isGrouped = true
 	for _, item := range items {
 		switch item.(type) {
 		case parser.FieldReference, parser.ColumnNumber:
-			idx, _ := view.Header.SearchIndex(item)
+			idx, err := view.FieldIndex(item)
+			if err != nil {
+				return err
+			}
 			view.Header[idx].IsGroupKey = true
 		}
 	}
+	view.RecordSet = records
+	view.isGrouped = true
 	return nil
 }
 
